@@ -361,6 +361,13 @@ def step (s : DrvState) (line : String) : DrvState × String :=
           | none => "none"
           | some c => s!"{c} {if Pruner.setupOk i c then "ok" else "fails"}")
     | _, _, _, _, _, _, _ => (s, "bad-op")
+  | ["pr.finish", g, c, h, st, r, live, scratch] =>
+    -- which kept blocks lose their history when a completed run resumes from token (st, r)
+    match bool? g, c.toNat?, h.toNat?, st.toNat?, r.toNat?, parseNats live, parseNats scratch with
+    | some g, some c, some h, some st, some r, some live, some scratch =>
+      (s, let l := Pruner.lost c h (Pruner.finish g c h (st, r) ⟨live, scratch⟩)
+          showNats l)
+    | _, _, _, _, _, _, _ => (s, "bad-op")
   | ["bt.first"] =>
     match s.bt.height with
     | none => (s, "noheight")
